@@ -2,7 +2,7 @@
 """Applicability audit for deterministic simulation with fault injection (DST).
 
 NOT a property check.  It re-derives, on the CURRENT /repo working tree, the
-premises on which /verif/DESIGN.md answers "not applicable" for C01-C18:
+premises on which /verif/DESIGN.md answers "not applicable" (first for C01-C18, now for C01-C15):
 num-dual contains nothing a simulator could own (no threads, locks, atomics,
 interior mutability, statics, clocks, I/O, randomness, async, Drop logic,
 multiply-invoked callbacks, GIL release) and pulls in no dependency that does.
@@ -47,8 +47,10 @@ PREMISES = [
      r"try_reserve|global_allocator|alloc::alloc|\bGlobalAlloc\b|alloc_error", None),
     ("callbacks other than call-once (Fn / FnMut bounds on drivers)", "C05, C12, C17",
      r"\b[A-Z]\w*:\s*(for<[^>]*>\s*)?Fn(Mut)?\s*\(", None),
-    ("hand-written (de)serialisation / stream framing", "C16",
-     r"impl[^{]*\b(Serialize|Deserialize|Visitor|Serializer|Deserializer)\b[^{]*\bfor\b|\bBufReader\b|\bBufWriter\b|"
+    # hand-written Serialize/Deserialize impls are no longer a premise: C16 is claimed and simulated at the
+    # Serializer/Deserializer seam (DESIGN.md section 13), whoever wrote the impls
+    ("own data formats / stream framing", "all (C16: the crate implements no Serializer/Deserializer of its own)",
+     r"impl[^{]*\b(Serializer|Deserializer)\b[^{]*\bfor\b|\bBufReader\b|\bBufWriter\b|"
      r"\bread_exact\b|\bwrite_all\b|\bimpl\s+(io::)?(Read|Write)\b", None),
     ("Python layer: GIL release / acquisition / mutable pyclass state", "C17",
      r"allow_threads|with_gil|Python::attach|\bdetach\s*\(|\bPyRefMut\b|\bunsendable\b|\bPyCell\b", None),
@@ -192,7 +194,7 @@ def audit(repo, with_deps=True, quiet=False):
     if broken:
         say("RESULT: a premise no longer holds -> revisit DESIGN.md section 7 for the properties named above")
         return 3, report
-    say("RESULT: all premises hold -> no thread, clock, I/O or shared-state surface; DST stays not applicable to C01-C16 (C17, C18 are simulated on the callback and sink seams; DESIGN.md sections 0-4, 10)")
+    say("RESULT: all premises hold -> no thread, clock, I/O or shared-state surface; DST stays not applicable to C01-C15 (C16, C17, C18 are simulated on the serde, callback and sink seams; DESIGN.md sections 0-4, 10, 13)")
     return 0, report
 
 
@@ -208,7 +210,7 @@ CANARIES = [
     ("src/python/dual.rs", "py.allow_threads(|| ());"),
     ("src/dual2_vec.rs", "pub fn hess2<G: Fn(u8) -> u8>(g: G) {}"),
     ("src/derivative.rs", "impl<T> Drop for Guard<T> { fn drop(&mut self) {} }"),
-    ("src/dual.rs", "impl<T, F> Serialize for Dual<T, F> {}"),
+    ("src/dual.rs", "impl<'a> serde::Serializer for Compact<'a> {}"),
     ("src/hyperdual.rs", "fn f() { unsafe { core::hint::unreachable_unchecked() } }"),
     ("src/python_macro.rs", "fn set_re(&mut self, v: f64) {}"),
     ("src/linalg.rs", "a.axis_iter(Axis(0)).into_par_iter();\nuse rayon::prelude::*;"),
